@@ -80,7 +80,7 @@ def uAtInParams (i : Nat) (σ : UState) : UStep :=
               else
                 let σa := σ.setUser σ.u.host.offs i
                 { σa with u := { σa.u with pass := {} } }
-    .next { σ1 with foundUser := true, errHeaders := false, st := .host0, s := i + 1,
+    .next { σ1 with foundUser := true, errHeaders := false, st := .host0, s := i + 1, portNo := 0,
                     u := { σ1.u with host := {}, port := {}, portNo := 0, params := {}, headers := {} } }
   else .fail .badChar i σ
 
